@@ -124,6 +124,9 @@ impl FlowSetBody {
                         nom::error::ErrorKind::Verify,
                     )));
                 }
+                // A template id names one definition at a time: a template record
+                // supersedes an options template received earlier under the same id.
+                parser.options_templates.remove(&template.template_id);
                 parser
                     .templates
                     .insert(template.template_id, template.clone());
@@ -137,6 +140,7 @@ impl FlowSetBody {
                         nom::error::ErrorKind::Verify,
                     )));
                 }
+                parser.templates.remove(&options_template.template_id);
                 parser
                     .options_templates
                     .insert(options_template.template_id, options_template.clone());
